@@ -522,7 +522,10 @@ Definition ex_ops : list op :=
     OWithCapacity 9 BHeap 5; OWithCapacity 10 (BReloc 4) 2; OPush Erased 9 SWrap; OPush Erased 10 SWrap;
     OPush Erased 9 (SWrong 7); OInsert Erased 9 5 (SBoxWrong 2);     (* refused before the index is looked at *)
     ODownWrong 7 TRemove 1; ODownWrong 7 TPop 0; ODownWrong 7 TSwapRemove 4;
-    OWrite 0 9 0; OWrite 1 9 3; OSwap 0 9 0 10 0; OSwap 0 9 0 10 1; OGet Erased 9 0; OGet Erased 10 0 ].
+    OWrite 0 9 0; OWrite 1 9 3; OSwap 0 9 0 10 0; OSwap 0 9 0 10 1; OGet Erased 9 0; OGet Erased 10 0;
+    OPush Erased 9 SWrap; OPush Erased 9 SWrap; OPush Erased 9 SWrap;
+    (* drain(..).nth(1), then nth_back(1): the items passed over are destroyed, not reported *)
+    ODrain Erased 9 BUnbounded BUnbounded [(true, KSkip); (true, KDown); (false, KSkip); (false, KDrop)] FinDrop ].
 
 Example ex_spec_defined : exists rs, spec_run ex_cfg [] 1 ex_ops = Some rs /\ length rs = length ex_ops.
 Proof. eexists. split; [vm_compute; reflexivity|reflexivity]. Qed.
@@ -546,7 +549,8 @@ Example ex_outcomes :
      (0,0,[3; 1; 23; 2; 2; 1; 34; 1; 1; 33; 0; 0; 0; 0; 2; 1; 34; 1; 1; 33; 0; 0; 0; 0]); (0,0,[33; 1; 3]); (1,0,[]);
      (0,0,[1; 0; 1; 0; 1; 3; 1; 1; 3; 1; 0; 1; 0; 1; 0]); (2,2,[]); (2,1,[]); (0,0,[0]);
      (0,0,[]); (0,0,[]); (0,0,[]); (0,0,[]); (2,2,[]); (2,2,[]); (0,0,[1; 3; 0; 0; 0]); (0,0,[1; 3; 0; 0; 0]); (2,1,[]);
-     (0,0,[36]); (2,1,[]); (0,0,[]); (2,1,[]); (0,0,[37]); (0,0,[40])].
+     (0,0,[36]); (2,1,[]); (0,0,[]); (2,1,[]); (0,0,[37]); (0,0,[40]);
+     (0,0,[]); (0,0,[]); (0,0,[]); (0,0,[4; 1; 41; 2; 41; 1; 42; 0])].
 Proof. vm_compute. reflexivity. Qed.
 
 (** ** Corollaries in the vocabulary of the properties *)
